@@ -67,6 +67,45 @@ pub(crate) mod verif_ring {
         bits
     }
 
+    /// zero-sized drop-counting element (VecDeque reports capacity usize::MAX for zero-sized types)
+    pub struct ZTag;
+    pub static ZDROPS: core::sync::atomic::AtomicU32 = core::sync::atomic::AtomicU32::new(0);
+    impl Drop for ZTag {
+        fn drop(&mut self) {
+            let v = ZDROPS.load(core::sync::atomic::Ordering::Relaxed);
+            ZDROPS.store(v + 1, core::sync::atomic::Ordering::Relaxed);
+        }
+    }
+    /// same history as `hist` for buffers of zero-sized elements: counts only (no identity)
+    pub fn hist_zst<B: RingBuf<Item = ZTag>, S: Src>(s: &mut S, cap: usize, n: usize) -> u32 {
+        ZDROPS.store(0, core::sync::atomic::Ordering::Relaxed);
+        let mut buf = B::with_capacity(cap);
+        let mut len = 0usize;
+        assert!(buf.capacity() == cap, "C19 ring buffer (zero-sized items): capacity() differs from the requested capacity");
+        let mut step = 0;
+        while step < n && !s.exhausted() {
+            step += 1;
+            // the observers first: a full buffer must refuse further elements
+            assert!(buf.can_push() == (len < cap), "C19 ring buffer (zero-sized items): can_push() inconsistent with len() and capacity()");
+            assert!(buf.len() == len && buf.is_empty() == (len == 0), "C19 ring buffer (zero-sized items): len()/is_empty() wrong");
+            let op = s.below(2);
+            if op == 0 {
+                s.assume(len < cap);
+                buf.push(ZTag);
+                len += 1;
+            } else {
+                s.assume(len > 0);
+                core::mem::forget(buf.pop());
+                len -= 1;
+            }
+        }
+        assert!(buf.can_push() == (len < cap), "C19 ring buffer (zero-sized items): can_push() inconsistent with len() and capacity()");
+        drop(buf);
+        assert!(ZDROPS.load(core::sync::atomic::Ordering::Relaxed) as usize == len, "C19 ring buffer (zero-sized items): stored elements not dropped exactly once");
+        s.reached(len as u32);
+        len as u32
+    }
+
     #[no_mangle]
     pub fn fi_verif_replay_ring(name: &str, cfg: u32, _p: u32, s: &mut ScriptSrc<'_>) -> bool {
         let cap = cfg as usize;
@@ -76,6 +115,11 @@ pub(crate) mod verif_ring {
             ("ring_hist_array", 2) => { hist::<ArrayBuf<Tag, [Tag; 2]>, _>(s, 2, 64); }
             ("ring_hist_array", 3) => { hist::<ArrayBuf<Tag, [Tag; 3]>, _>(s, 3, 64); }
             ("ring_hist_array", 4) => { hist::<ArrayBuf<Tag, [Tag; 4]>, _>(s, 4, 64); }
+            #[cfg(feature = "alloc")]
+            ("ring_zst_fixed", _) => { hist_zst::<FixedHeapBuf<ZTag>, _>(s, cap, 64); }
+            #[cfg(feature = "alloc")]
+            ("ring_zst_growing", _) => { hist_zst::<GrowingHeapBuf<ZTag>, _>(s, cap, 64); }
+            ("ring_zst_array", 2) => { hist_zst::<ArrayBuf<ZTag, [ZTag; 2]>, _>(s, 2, 64); }
             #[cfg(feature = "alloc")]
             ("ring_hist_fixed", _) => { hist::<FixedHeapBuf<Tag>, _>(s, cap, 64); }
             #[cfg(feature = "alloc")]
@@ -213,6 +257,18 @@ pub(crate) mod verif_ring {
         hist_proof!(growing_hist_c2, GrowingHeapBuf<Tag>, 2, 6, 8, W_FULL_THEN_POP);
         hist_proof!(growing_hist_c3, GrowingHeapBuf<Tag>, 3, 6, 8, W_FULL_THEN_POP);
 
+        #[kani::proof]
+        #[kani::unwind(6)]
+        fn zst_fixed_c0() { let _ = hist_zst::<FixedHeapBuf<ZTag>, _>(&mut KaniSrc, 0, 2); }
+        #[kani::proof]
+        #[kani::unwind(6)]
+        fn zst_fixed_c2() { let _ = hist_zst::<FixedHeapBuf<ZTag>, _>(&mut KaniSrc, 2, 4); }
+        #[kani::proof]
+        #[kani::unwind(6)]
+        fn zst_growing_c2() { let _ = hist_zst::<GrowingHeapBuf<ZTag>, _>(&mut KaniSrc, 2, 4); }
+        #[kani::proof]
+        #[kani::unwind(6)]
+        fn zst_array_c2() { let _ = hist_zst::<ArrayBuf<ZTag, [ZTag; 2]>, _>(&mut KaniSrc, 2, 4); }
         #[kani::proof]
         #[kani::unwind(8)]
         fn array_witness_c2() {
